@@ -5,3 +5,4 @@ import RB.Proofs.C15
 import RB.Model.Adapters
 import RB.Util.AdapterJson
 import RB.Proofs.C12
+import RB.Proofs.C05
